@@ -180,6 +180,66 @@ fn e2e_text_signatures(ctx: &mut Ctx) {
     }
 }
 
+/// the signing side fed piece by piece (`DetachedSignature::sign_text_data` over a reader that
+/// delivers exactly the given chunks, i.e. the `io::Write` side of the signature hasher): every
+/// string over {CR, LF, x} up to length 5 under every chunking, verified over the whole document
+fn e2e_streamed_signing(ctx: &mut Ctx) {
+    use pgp::composed::DetachedSignature;
+    use pgp::crypto::hash::HashAlgorithm;
+    use pgp::types::{KeyVersion, Password};
+    use rand::SeedableRng;
+    let mut rng = rand_chacha::ChaCha8Rng::seed_from_u64(1415);
+    let key = crate::keys::ed25519_x25519(&mut rng, KeyVersion::V4);
+    let pk = key.to_public_key();
+    let alphabet = [b'\r', b'\n', b'x'];
+    let lmax = ctx.pick(5usize, 6usize);
+    for n in 1..=lmax {
+        for s in gen::all_strings(&alphabet, n) {
+            for ch in gen::all_chunkings(&s) {
+                if ch.len() < 2 {
+                    continue;
+                }
+                let r = guarded(|| {
+                    let sig = DetachedSignature::sign_text_data(&mut rng, &key.primary_key, &Password::empty(), HashAlgorithm::Sha256, ScheduledReader::from_chunks(&ch)).ok()?;
+                    Some(sig.verify(&pk.primary_key, &s[..]).is_ok())
+                });
+                ctx.oracle("text_signature_follows_canon", "DetachedSignature::sign_text_data(reader delivering the chunks) -> verify(whole document)", &format!("chunks={}", hx_list(&ch)), r == Ok(Some(true)), &format!("{r:?}"));
+                ctx.stat("gen:e2e_streamed_signing");
+            }
+        }
+    }
+    // the cleartext framework canonicalises on both sides as well: sign, armor, parse, verify
+    for n in 1..=lmax {
+        for t in gen::all_strings(&alphabet, n) {
+            let Ok(text) = String::from_utf8(t.clone()) else { continue };
+            let r = guarded(|| {
+                let c = pgp::composed::CleartextSignedMessage::sign(&mut rng, &text, &key.primary_key, &Password::empty()).ok()?;
+                let armored = c.to_armored_string(Default::default()).ok()?;
+                let (back, _) = pgp::composed::CleartextSignedMessage::from_string(&armored).ok()?;
+                Some(back.verify(&pk.primary_key).is_ok() && canon_ref(back.signed_text().as_bytes()) == canon_ref(c.signed_text().as_bytes()))
+            });
+            ctx.oracle("text_signature_follows_canon", "CleartextSignedMessage::sign -> to_armored_string -> from_string -> verify", &format!("text={}", hx(&t)), r == Ok(Some(true)), &format!("{r:?}"));
+            ctx.stat("gen:e2e_cleartext");
+        }
+    }
+    // long lines: a piece without any LF that ends in CR (the copy buffer of io::copy is 8 KiB)
+    for (a, b) in [(8191usize, 10usize), (8192, 10), (100, 8192), (16383, 5)] {
+        for tail in ["\r\nend\n", "\rmid\nend", "\r\r\n"] {
+            let mut s = vec![b'x'; a];
+            s.extend_from_slice(tail.as_bytes());
+            s.extend(std::iter::repeat(b'y').take(b));
+            for cut in [a, a + 1, a + 2] {
+                let ch = vec![s[..cut].to_vec(), s[cut..].to_vec()];
+                let r = guarded(|| {
+                    let sig = DetachedSignature::sign_text_data(&mut rng, &key.primary_key, &Password::empty(), HashAlgorithm::Sha256, ScheduledReader::from_chunks(&ch)).ok()?;
+                    Some(sig.verify(&pk.primary_key, &s[..]).is_ok())
+                });
+                ctx.oracle("text_signature_follows_canon", "DetachedSignature::sign_text_data(reader delivering the chunks) -> verify(whole document)", &format!("x*{a} + {tail:?} + y*{b}, cut at {cut}"), r == Ok(Some(true)), &format!("{r:?}"));
+            }
+        }
+    }
+}
+
 fn sha2_256(d: &[u8]) -> Vec<u8> {
     use sha2::Digest;
     sha2::Sha256::digest(d).to_vec()
@@ -187,6 +247,7 @@ fn sha2_256(d: &[u8]) -> Vec<u8> {
 
 pub fn run(ctx: &mut Ctx) {
     e2e_text_signatures(ctx);
+    e2e_streamed_signing(ctx);
     let alphabet = [b'\r', b'\n', b'x'];
     // exhaustive: all strings up to length L, all chunkings up to length Lc
     let (l_all, l_chunk) = ctx.pick((8usize, 6usize), (10usize, 8usize));
